@@ -473,11 +473,11 @@ func (r *Router) String() string {
 }
 
 func (r *Router) formatPath(path string) string {
+	path = strings.TrimSpace(path)
 	if path == "" || path == "/" {
 		return "/"
 	}
 
-	path = strings.TrimSpace(path)
 	// clear last slash: '/'
 	if !r.strictLastSlash && path[len(path)-1] == '/' {
 		path = strings.TrimRight(path, "/") // TODO alloc 1 times
